@@ -22,6 +22,10 @@ BIG = 1000        # tag layout: value = 1 + tag + (2*element + component) * BIG
 LIM = 30000       # fixed-point components beyond this are recorded as LIM + 1 (the spec's InRange rejects them)
 MAXRS = 16384
 RMIN = {"VProfile": 2.5, "VProfileSmall": 0.75}   # registered in harness/conf/grids.yaml
+# lengths far below any lattice unit: the coordinate EPS[e-1] * (dy, dx) is a hair away from the profile centre (a rounding
+# residue, an origin offset of 1e-13, ...).  All are large enough for y*y + x*x and r_min / radius to stay normal numbers.
+EPS = (1.0e-13, 1.0e-15, 2.0 ** -60, 1.0e-150, 4.0e-13, 1.0e-9, 0.1 + 0.2 - 0.3)
+TINY_DIRS = ((1, 0), (0, -1), (1, 1), (-1, 1), (3, -4), (-2, 1))
 
 MC_CFG = """CONSTANTS
   Shapes <- MCShapes
@@ -31,6 +35,9 @@ MC_CFG = """CONSTANTS
   PGeoms <- MCPGeoms
   Depths <- MCDepths
   Lattice <- MCLattice
+  TinyEps <- MCTinyEps
+  TinyDirs <- MCTinyDirs
+  TinyShapes <- MCTinyShapes
 SPECIFICATION Spec
 INVARIANT DomainAndKinds
 INVARIANT PairingSlimNative
@@ -39,6 +46,7 @@ INVARIANT TransformOnce
 INVARIANT ScaleMeetsPostcondition
 INVARIANT CentreCase
 INVARIANT PostconditionIsTight
+INVARIANT TinyJudgedByDirection
 INVARIANT LineAnyDirection
 INVARIANT Line1DAnyDirection
 """
@@ -51,6 +59,9 @@ TRACE_CFG = """CONSTANTS
   PGeoms = {}
   Depths = {}
   Lattice = {}
+  TinyEps = {}
+  TinyDirs = {}
+  TinyShapes = {}
 SPECIFICATION TraceSpec
 POSTCONDITION TraceAccepted
 """
@@ -233,14 +244,32 @@ def complete(inst, seed):
     api, gk = inst["api"], inst["gk"]
     n = len(inst["u"])
     radial = api in ("reloc",) + STACKS
+    if radial and inst["par"][0] < 0:
+        # enumerated by Decorators.tla (TinyInst): the coordinate EPS[e-1]*(dy,dx) as a one-point set, or as the central pixel
+        # of a grid with pixel scale 2 units centred, like the profile, on the origin
+        e, dy, dx = -inst["par"][0], inst["par"][1], inst["par"][2]
+        inst.update({"oy": 0, "ox": 0, "cy": 0, "cx": 0, "sy": 2, "sx": 2})
+        if gk == "g2d":
+            h, w = inst["h"], inst["w"]
+            mid = (h // 2) * w + w // 2
+            inst["tiny"] = [[inst["u"].index(mid), e, dy, dx]] if (h % 2 and w % 2 and mid in inst["u"]) else []
+        else:
+            inst["pts"] = [[0, 0]]
+            inst["tiny"] = [[0, e, dy, dx]]
     if radial:
         inst.setdefault("m", 1)
         inst.setdefault("tau", 0.25 / inst["m"])
         inst.setdefault("prof", "VProfile" if inst["par"][3] == 10 * inst["m"] else "VProfileSmall")
+        inst.setdefault("tiny", [])
     else:
         inst.setdefault("tau", float(TAUS[int(rng.integers(0, len(TAUS)))]))
         inst.setdefault("prof", "VProfile")
     s = inst["par"][0] if inst["par"][0] > 0 else 2 * int(rng.integers(1, 4))
+    if inst.get("tiny"):
+        # a tiny offset survives the change of frame only if nothing of lattice size is subtracted from it
+        inst["cy"], inst["cx"] = 0, 0
+        if gk == "g2d" and inst["par"][0] > 0:
+            inst["oy"], inst["ox"] = -inst["par"][1], -inst["par"][2]
     if gk == "g2d":
         if api in WRAPS:
             inst.setdefault("sy", 2 * int(rng.integers(1, 4)))
@@ -310,6 +339,10 @@ def build_grid(inst):
                             (inst["ox"] + (2 * (k % w) - (w - 1)) * (inst["sx"] // 2)) * tau] for k in inst["u"]])
             if np.max(np.abs(np.array(grid, dtype=float) - ex)) > 1e-9:
                 raise core.MachineryError(f"pixel centres of {inst} are not where the lattice puts them")
+            for k, e, dy, dx in inst.get("tiny", []):
+                if ex[k, 0] != inst["cy"] * tau or ex[k, 1] != inst["cx"] * tau:
+                    raise core.MachineryError(f"tiny offset on a pixel that is not at the profile centre: {inst}")
+                ex[k] = (EPS[e - 1] * dy, EPS[e - 1] * dx)
             if not np.array_equal(np.array(grid, dtype=float), ex):
                 grid = aa.Grid2D(values=ex, mask=mask)
         return grid
@@ -319,6 +352,10 @@ def build_grid(inst):
         mask = aa.Mask1D(mask=m, pixel_scales=inst["sx"] * tau, origin=(inst["ox"] * tau,))
         return aa.Grid1D.from_mask(mask)
     vals = np.array(inst["pts"], dtype=float) * tau
+    for k, e, dy, dx in inst.get("tiny", []):
+        if inst["pts"][k] != [inst["cy"], inst["cx"]] or inst["cy"] or inst["cx"]:
+            raise core.MachineryError(f"tiny offset on a point that is not at the (origin) profile centre: {inst}")
+        vals[k] = (EPS[e - 1] * dy, EPS[e - 1] * dx)
     if gk == "irr":
         return aa.Grid2DIrregular(values=[(float(y), float(x)) for y, x in vals])
     return vals
@@ -522,7 +559,17 @@ def record_for(inst):
     if api in ("reloc",) + STACKS:
         R = exact.to_int_exact(RMIN[inst["prof"]], scale=tau, what="radial minimum")
         S = (1024 if inst["prof"] == "VProfile" else 4096) // inst["m"]
-        rec.update({"R": R, "S": S, "pt": _exact_units(expected, tau), "q": _fix(recv, S / tau)})
+        # a tiny coordinate is described by its integer direction (after the profile's quarter turns), everything else by
+        # its exact lattice position
+        lat = np.array(expected, dtype=float)
+        tiny = [False] * lat.shape[0]
+        for k, e, dy, dx in inst.get("tiny", []):
+            want = _T(np.array([[EPS[e - 1] * dy, EPS[e - 1] * dx]]), (0.0, 0.0), inst["quarter"] if api in STACKS else 0)[0]
+            if not np.array_equal(lat[k], want):
+                raise core.MachineryError(f"tiny coordinate {k} of {inst} is {lat[k]}, expected {want}")
+            lat[k] = _T(np.array([[float(dy), float(dx)]]), (0.0, 0.0), inst["quarter"] if api in STACKS else 0)[0] * tau
+            tiny[k] = True
+        rec.update({"R": R, "S": S, "pt": _exact_units(lat, tau), "tiny": tiny, "q": _fix(recv, S / tau)})
     return rec
 
 
@@ -552,10 +599,13 @@ def bounds(quick):
     if quick:
         return {"shapes": all33, "mid_shapes": [s for s in all33 if s not in ((3, 3), (3, 2))], "lens": [1, 2, 3, 4],
                 "geoms": [(2, 0, 0, 3), (4, 1, -2, 3), (8, 0, 0, 10), (8, 3, -4, 10)],
-                "pgeoms": [(2, 0, 0), (4, 1, -2), (2, 3, 3)], "depths": [1, 2, 3], "lattice": 11}
+                "pgeoms": [(2, 0, 0), (4, 1, -2), (2, 3, 3)], "depths": [1, 2, 3], "lattice": 11,
+                "tiny_eps": [1, 2, 3, 4], "tiny_dirs": list(TINY_DIRS), "tiny_shapes": [(1, 1), (1, 3)]}
     return {"shapes": all33 + [(2, 4), (4, 2), (1, 5), (5, 1)], "mid_shapes": all33, "lens": [1, 2, 3, 4, 5, 6],
             "geoms": [(2, 0, 0, 3), (2, 1, 1, 3), (4, 1, -2, 3), (4, 0, 0, 10), (8, 0, 0, 10), (8, 3, -4, 10), (6, 1, 2, 10), (10, 5, 0, 10)],
-            "pgeoms": [(2, 0, 0), (4, 1, -2), (2, 3, 3), (6, -5, 2), (8, 0, 7)], "depths": [1, 2, 3, 4], "lattice": 14}
+            "pgeoms": [(2, 0, 0), (4, 1, -2), (2, 3, 3), (6, -5, 2), (8, 0, 7)], "depths": [1, 2, 3, 4], "lattice": 14,
+            "tiny_eps": list(range(1, len(EPS) + 1)), "tiny_dirs": list(TINY_DIRS) + [(-3, -4), (0, 2), (5, 12)],
+            "tiny_shapes": [(1, 1), (1, 3), (3, 1), (3, 3)]}
 
 
 def expected_count(b):
@@ -567,7 +617,8 @@ def expected_count(b):
     trans = 2 * len(b["depths"]) * (nm(b["mid_shapes"]) + 2 * nl)
     rs = {g[3] for g in b["geoms"]}
     reloc = 3 * len(b["geoms"]) * nm(b["mid_shapes"]) + 2 * (2 * b["lattice"] + 1) ** 2 * len(rs)
-    return wrap + proj + trans + reloc
+    tiny = len(b["tiny_eps"]) * len(b["tiny_dirs"]) * len(rs) * (2 + 3 * nm(b["tiny_shapes"]))
+    return wrap + proj + trans + reloc + tiny
 
 
 def enumerate_instances(ctx, b):
@@ -579,6 +630,9 @@ def enumerate_instances(ctx, b):
         f"MCPGeoms == {_tla_set(_tup(g) for g in b['pgeoms'])}",
         f"MCDepths == {_tla_set(str(d) for d in b['depths'])}",
         f"MCLattice == -{b['lattice']} .. {b['lattice']}",
+        f"MCTinyEps == {_tla_set(str(e) for e in b['tiny_eps'])}",
+        f"MCTinyDirs == {_tla_set(_tup(d) for d in b['tiny_dirs'])}",
+        f"MCTinyShapes == {_tla_set(_tup(s) for s in b['tiny_shapes'])}",
     ])
     res = ctx.tlc("Decorators", MC_CFG, defs=defs, tag="MC_Decorators", timeout=3000, coverage=True)
     insts = res.by_kind("inst")
@@ -599,6 +653,14 @@ def _rand_mask(rng, max_side):
 
 
 PYTH = [(3, 4), (4, 3), (6, 8), (8, 6), (0, 10), (10, 0), (0, 3), (3, 0), (5, 12), (12, 5), (0, 0)]
+
+
+def _rand_tiny(rng):
+    """[eps index, dy, dx] of a coordinate EPS[e-1]*(dy,dx) with a small non-zero integer direction."""
+    while True:
+        dy, dx = int(rng.integers(-4, 5)), int(rng.integers(-4, 5))
+        if dy or dx:
+            return [int(rng.integers(1, len(EPS) + 1)), dy, dx]
 
 
 def random_instances(rng, count, max_side=7):
@@ -648,6 +710,12 @@ def random_instances(rng, count, max_side=7):
                 h, w, u = _rand_mask(rng, max_side)
                 s = 2 * int(rng.integers(1, 1 + (6 if big else 2) * m))
                 inst.update({"h": h, "w": w, "u": u, "par": [s, int(rng.integers(-s, s + 1)), int(rng.integers(-s, s + 1)), R]})
+                if rng.random() < 0.35:
+                    # put one unmasked pixel exactly at the profile centre, then a hair away from it
+                    kk = int(rng.integers(0, len(u)))
+                    i, j = u[kk] // w, u[kk] % w
+                    inst["par"][1], inst["par"][2] = (h - 1 - 2 * i) * (s // 2), (2 * j - (w - 1)) * (s // 2)
+                    inst["tiny"] = [[kk] + _rand_tiny(rng)]
             else:
                 n = int(rng.integers(2, 15))
                 seen = set()
@@ -664,6 +732,20 @@ def random_instances(rng, count, max_side=7):
                 pts = sorted(seen)
                 rng.shuffle(pts)
                 cy, cx = (0, 0) if api == "reloc" else (int(rng.integers(-9, 10)), int(rng.integers(-9, 10)))
+                if rng.random() < 0.35:
+                    # one to three coordinates a hair away from the centre (profile centred on the origin, see `complete`)
+                    cy, cx = 0, 0
+                    pts = [q for q in pts if q != (0, 0)] if rng.random() < 0.5 else pts
+                    tiny = {}
+                    while len(tiny) < int(rng.integers(1, 4)):
+                        t = _rand_tiny(rng)
+                        tiny[tuple(t)] = t
+                    inst["tiny"] = []
+                    for t in tiny.values():
+                        pos = int(rng.integers(0, len(pts) + 1))
+                        pts.insert(pos, (0, 0))
+                        inst["tiny"] = [[k + (1 if k >= pos else 0)] + r for k, *r in inst["tiny"]] + [[pos] + t]
+                    n = len(pts)
                 # pts are relative to the centre before the quarter turns; the grid holds the absolute coordinates
                 inst.update({"h": 1, "w": n, "u": list(range(n)), "par": [0, 0, 0, R], "cy": cy, "cx": cx,
                              "pts": [[int(p[0]) + cy, int(p[1]) + cx] for p in pts]})
@@ -679,6 +761,8 @@ def _describe(rec):
     s = f"{rec['api']} on {rec['gk']} ({rec['rk']}{', list' if rec['lst'] else ''}) {rec['h']}x{rec['w']} u={rec['u']}"
     if rec["api"] in ("reloc",) + STACKS:
         s += f" profile={i.get('prof')} r_min={rec.get('R')} units of {i.get('tau')}; points rel. centre {rec.get('pt')} -> received*S {rec.get('q')} (S={rec.get('S')})"
+        if i.get("tiny"):
+            s += "; tiny coordinates (index, eps, direction): " + str([(t[0], EPS[t[1] - 1], t[2:]) for t in i["tiny"]])
     elif "q" in rec:
         s += f" scale={rec.get('s')} centre={rec.get('c', [0, 0])} angle={i.get('angle')} received*S={rec.get('q')} (S={rec.get('S')})"
     elif rec["api"] == "transform":
@@ -738,6 +822,9 @@ def run(ctx):
                   "1d_and_irregular_lengths": b["lens"], "relocate_geometries(scale,cy,cx,r_min in units of 1/4)": b["geoms"],
                   "project_geometries(scale,cy,cx)": b["pgeoms"], "transform_depths": b["depths"],
                   "single_points_lattice": f"[-{b['lattice']},{b['lattice']}]^2 x r_min {{2.5, 0.75}}",
+                  "coordinates_a_hair_from_centre": {"eps": [EPS[e - 1] for e in b["tiny_eps"]], "directions": [list(d) for d in b["tiny_dirs"]],
+                                                     "as": "one-point ndarray / Grid2DIrregular; central pixel of every mask of " + str(b["tiny_shapes"])
+                                                           + " through reloc, stack_array, stack_grid"},
                   "random_instances": nrand, "random_max_side": 7 if quick else 9}
     insts = enumerate_instances(ctx, b)
     ctx.exhaustive = True
